@@ -63,8 +63,10 @@ func (n *Node) isLastOfHierarchy() bool {
 		return false
 	}
 
+	// compare the nodes themselves: indexes of programmatically built trees are not unique
+	// (the package-level counter is reset by every From-Root call and shared by all callers)
 	lastIdx := len(n.parent.children) - 1
-	return n.index == n.parent.children[lastIdx].index
+	return n == n.parent.children[lastIdx]
 }
 
 const (
